@@ -211,7 +211,7 @@ def scribble(o, _seen=None, _depth=0):
             o[i] ^= 0xFF
         o.extend(b"\x55")
         return
-    if isinstance(o, list):
+    if isinstance(o, (list, tuple)):
         for x in o:
             scribble(x, _seen, _depth + 1)
         return
